@@ -575,15 +575,22 @@ def sorted_(e: Engine, st: State, args, kw) -> SV:
         return apply_lambda(e, st, key.tag[1], [el])
     saved = e.spec_mode
     e.spec_mode = True
+    partial_key = False
     try:
         ka, kb = keyof(j), keyof(j2)
+        if key is None and ka.ty.kind == "tuple" and len(ka.v) >= 2 and ka.v[0].ty.kind == "tuple" and any(x.ty.kind != "int" for x in ka.v[1:]):
+            # natural order of heterogeneous tuples: only the leading (int, int) component is modelled; the order among
+            # elements with equal leading components (decided by the remaining components) is left unspecified
+            ka, kb = ka.v[0], kb.v[0]
+            partial_key = True
         le = e.compare(st, "LtE", ka, kb)
         eq = e.equal(st, ka, kb)
     finally:
         e.spec_mode = saved
     st.assume(ForAllP([j, j2], Implies(And(j >= 0, j <= j2, j2 < n), le)))
-    st.assume(ForAllP([j, j2], Implies(And(j >= 0, j < j2, j2 < n, eq), p(j) < p(j2)),
-                        patterns=[z3.MultiPattern(p(j), p(j2))]))
+    if not partial_key:
+        st.assume(ForAllP([j, j2], Implies(And(j >= 0, j < j2, j2 < n, eq), p(j) < p(j2)),
+                            patterns=[z3.MultiPattern(p(j), p(j2))]))
     out.tag = ("sorted", xs, p, q)
     e.trust("E-SORTED: sorted() returns a stable permutation with non-decreasing keys")
     return out
@@ -885,6 +892,8 @@ def re_call(e: Engine, st: State, fname: str, args, kw, n) -> SV:
         return sv
     if fname == "escape":
         return SV(STR, re_escape(args[0].v))
+    if fname == "finditer":
+        return re_finditer(e, st, args[0], args[1])
     if fname == "sub":
         r = SV(STR, z3.String(fresh_name("resub")))
         r.tag = ("resub", args)
@@ -895,6 +904,31 @@ def re_call(e: Engine, st: State, fname: str, args, kw, n) -> SV:
     if fname in ("X", "I", "MULTILINE", "VERBOSE"):
         return SV(INT, I({"X": 64, "VERBOSE": 64, "I": 2, "MULTILINE": 8}[fname]))
     raise Unsupported(f"re.{fname}")
+
+
+def re_finditer(e: Engine, st: State, pat: SV, text: SV) -> SV:
+    """E-RE-SPAN for finditer: match objects over `text`, in increasing non-overlapping order.  For a pattern
+    re.escape(x) (E-RE-ESCAPE): every match is an occurrence of x, and there is a match iff x occurs in the text."""
+    ms = fresh_sv(SEQ(OBJ("Match")), "finditer", optional=False)
+    e.wf(st, ms)
+    j = z3.Int(fresh_name("fj"))
+    z = S("0")
+    mo = z3.Select(ms.v.arrs[0], j)
+    tv = text.v
+    body = And(Not(z3.Select(ms.v.arrs[1], j)), m_text(mo) == tv, m_ghas(mo, z), 0 <= m_gstart(mo, z), m_gstart(mo, z) <= m_gend(mo, z),
+               m_gend(mo, z) <= z3.Length(tv))
+    lit = None
+    if z3.is_app(pat.v) and pat.v.decl().eq(re_escape):
+        lit = pat.v.arg(0)
+        body = And(body, m_gend(mo, z) - m_gstart(mo, z) == z3.Length(lit), z3.SubString(tv, m_gstart(mo, z), z3.Length(lit)) == lit)
+    st.assume(ForAllP([j], Implies(And(j >= 0, j < ms.v.len), body), patterns=[z3.Select(ms.v.arrs[0], j)]))
+    mo2 = z3.Select(ms.v.arrs[0], j + 1)
+    st.assume(ForAllP([j], Implies(And(j >= 0, j + 1 < ms.v.len), m_gend(mo, z) <= m_gstart(mo2, z)), patterns=[z3.Select(ms.v.arrs[0], j + 1)]))
+    if lit is not None:
+        st.assume(Implies(z3.Length(lit) >= 1, (ms.v.len >= 1) == z3.Contains(tv, lit)))
+        e.trust("E-RE-ESCAPE: re.escape(x) matches exactly the occurrences of x")
+    e.trust("E-RE-SPAN: match objects: 0 <= start(0) <= start(g) <= end(g) <= end(0) <= len(text), m[g] == text[start(g):end(g)], non-participating group is None")
+    return ms
 
 
 def match_axioms_cond(e: Engine, st: State, m: SV):
